@@ -25,7 +25,7 @@ const REJECTS: &[(&str, &str)] = &[
 /// hand-written line material around the generated steps: aliases, functions over aliases, destructuring, shadowing, imports
 fn extra_lines(rng: &mut Rng, k: usize) -> Vec<String> {
     let t = format!("t{}", k);
-    match rng.below(9) {
+    match rng.below(10) {
         0 => vec![format!("'{} = A['int] | B['bin] | C", t), format!("f{} = #'{} {{ | =A[n] => n | =B[b] => b __binary_length__ | 0 }}", k, t), format!("[A[{}] f{}, B[0x0102] f{}, C f{}]", rng.range(0, 9), k, k, k)],
         1 => vec![format!("[a{}, b{}] = [{}, 0x0{}]", k, k, rng.range(0, 99), rng.below(9)), format!("[a{}, b{} __binary_length__] __integer_add__", k, k)],
         2 => vec![format!("s{} = {}", k, rng.range(0, 9)), format!("s{} = [s{}, s{}]", k, k, k), format!("s{} = [s{}.0, 1] __integer_add__", k, k), format!("s{}", k)],
@@ -33,6 +33,8 @@ fn extra_lines(rng: &mut Rng, k: usize) -> Vec<String> {
         4 => vec![format!("c{} = {}", k, rng.range(1, 9)), format!("g{} = #'int {{ [~, c{}] __integer_multiply__ }}", k, k), format!("c{} = 100", k), format!("{} g{}", rng.range(0, 9), k)],
         // a line that short-circuits to nil before one of its bindings is stored; the session must survive it
         6 => vec![format!("n{} = {}", k, rng.range(0, 9)), format!("p{} = 1, {} =2, q{} = 3", k, rng.range(3, 9), k), format!("n{}", k), format!("[n{}, 1] __integer_add__", k)],
+        // a line whose statements are separated by a type alias, the first of them nil: the bindings after the alias are skipped
+        8 => vec![format!("d{} = {}", k, rng.range(0, 9)), format!("{} =2, 'z{} = 'int, e{} = 5", rng.range(3, 9), k, k), format!("d{}", k), format!("[d{}, 1] __integer_add__", k)],
         // an alias-only line between a value and a line that uses the previous result
         7 => vec![format!("{}", rng.range(1, 50)), format!("'u{} = 'int", k), "[~, 1] __integer_add__".to_string()],
         5 => vec![format!("[%lib2.k, {} %lib2.inc]", rng.range(0, 9)), format!("[{}, 2] %int.div", rng.range(2, 40)), "Cons[1, Cons[2, Nil]] %list.head".to_string()],
